@@ -3,7 +3,7 @@
 Pipeline (DESIGN.md 7/C19):
   1. TLC on MC_SegSoup: the valid segment sets of four small topologies (up-core-down, shortcut-Y,
      peering-H, multi-hop core) under every structural mutation (DeleteEntry, DupEntry, SwapEntries,
-     ZeroIf, ZeroAll, AliasIf, CrossWirePeer, Oversize 63/64/70, SingleAs, Empty, OutOfRangeMtu,
+     ZeroIf, ZeroAll, AliasIf, CrossWirePeer, ZeroPeer, Oversize 63/64/70, SingleAs, Empty, OutOfRangeMtu,
      DupSegment, FlipKind, AddIsland) and every pair "mutation, then junk/degenerate mutation"
      (thorough: all pairs on two topologies, triples with the small alphabet).  The I-layer is the
      combinator as written (graph edges, breadth-first search with valid_next_seg, PathSolution::path
@@ -42,7 +42,7 @@ from vcommon import read_ndjson, write_ndjson
 SD = "SegSoup"
 
 ALL_OPS = ["DeleteEntry", "DupEntry", "SwapEntries", "ZeroIf", "ZeroAll", "AliasIf", "CrossWirePeer", "Oversize",
-           "SingleAs", "Empty", "OutOfRangeMtu", "DupSegment", "FlipKind", "AddIsland"]
+           "SingleAs", "Empty", "OutOfRangeMtu", "DupSegment", "FlipKind", "AddIsland", "ZeroPeer"]
 JUNK_OPS = ["AddIsland", "ZeroAll", "Empty", "DupSegment", "SingleAs", "FlipKind"]
 
 MC_TMPL = """SPECIFICATION MCSpec
